@@ -37,6 +37,7 @@ type interpreter struct {
 	runtimeErrorString types.Type
 	pools              map[*value]*poolState
 	syncMaps           map[*value]*omap
+	decoderReaders     map[*value]value // reader handed to a (stubbed) decoder constructor
 	validateFailed     bool // outcome of the last (stubbed) gookit/validate run
 	ghost              map[string]value
 	events             []evRec
